@@ -409,6 +409,10 @@ OpStep(e) ==
                        \cup (IF m \in {"I4 an EMPTY bucket exists", "I5 growth_left accounting"} THEN {"C17"} ELSE {})>> : m \in invStruct}
              \cup {<<"findability invariant violated on the observed state: " \o m, opp \cup KindProp(hd.kind)>> : m \in invFind}
              \cup (IF ~chkRet THEN {<<"result differs from the abstract specification", opp>>} ELSE {})
+             \* two live &mut to one entry out of a safe call is undefined behaviour by itself: evidence against C02 as well
+             \cup (IF e.op \in {"get_many_mut", "get_many_kv_mut", "t_get_many_mut"} /\ e.pn = "" /\ Len(e.r) = 2 * Len(e.ks)
+                     /\ (\E i, j \in 1..Len(e.ks) : i # j /\ e.r[i] = 1 /\ e.r[j] = 1 /\ e.r[Len(e.ks) + i] = e.r[Len(e.ks) + j])
+                   THEN {<<"get_many_mut returned two mutable references to the same entry", {"C02", "C15"} \cup opp>>} ELSE {})
              \cup (IF ~chkAbs THEN {<<"contents differ from the abstract specification", opp>>} ELSE {})
              \cup (IF t \in lk.dv /\ e.op \in {"iter", "into_iter", "drain"}
                    THEN {<<"iterates a table whose contents had diverged from the reference model at an earlier operation (the elements it yields are not the stored ones)", {"C09"}>>} ELSE {})
